@@ -25,6 +25,7 @@ RULE = (
     "distinct = distinct pattern+configuration"
 )
 RULE += '; the no-needless-delay condition is judged at arrival and at every instant of a wait'
+RULE += '; one decorator object may serve the function under test and a bystander; periods of minutes'
 LEVEL_TEXT = (
     "Validity predicates over exact virtual start times: no half-open period window with more than limit starts, starts "
     "in arrival order, no delay when the stated condition holds, every call ends with the function's own outcome; "
@@ -84,7 +85,10 @@ def run_case(case) -> Outcome:
         else:
             p = float(period)
         # the bare decorator form uses the documented defaults limit=1, period=1 second
-        wrapped = throttle(fn) if form == "bare" else throttle(limit=limit, period=p)(fn)
+        # ONE decorator object (a reusable preset such as `limited = throttle(limit=2, period=1)`), applied to the function
+        # under test and - for bystander == "same" - to a second function: each decorated function has its own window
+        preset = None if form == "bare" else throttle(limit=limit, period=p)
+        wrapped = throttle(fn) if preset is None else preset(fn)
 
         if case.get("bystander"):
             # a second, independently throttled function (much longer period) called at the same moments: the two
@@ -93,7 +97,7 @@ def run_case(case) -> Outcome:
             async def other_fn(i):
                 return ("other", i)
 
-            other = throttle(limit=1000, period=1000.0)(other_fn)
+            other = preset(other_fn) if (case["bystander"] == "same" and preset is not None) else throttle(limit=1000, period=1000.0)(other_fn)
         else:
             other = None
 
@@ -231,8 +235,9 @@ def strategy(tier):
     @st.composite
     def cases(draw):
         limit = draw(st.integers(1, 4))
-        period = draw(st.sampled_from([0.5, 1.0, 2.5, 0.5, 1.0, 2.5, 1 / 3, 0.1, 0.7]))
-        if period in (0.5, 1.0, 2.5):
+        # also periods of minutes (rate limits of external services): waits longer than a minute
+        period = draw(st.sampled_from([0.5, 1.0, 2.5, 0.5, 1.0, 2.5, 1 / 3, 0.1, 0.7, 90.0, 300.0]))
+        if period in (0.5, 1.0, 2.5, 90.0, 300.0):
             form = draw(st.sampled_from(["float", "timedelta", "float", "int"] if period == 1.0 else ["float", "timedelta"]))
         else:
             form = "float"  # not a whole number of microseconds: only meaningful as a float
@@ -268,7 +273,7 @@ def strategy(tier):
             calls.append({"a": a, "dur": dur, "out": draw(st.sampled_from(["value", "value", "exc"])), "cancel_at": cancel_at})
         # the pattern starts at an absolute time that is not a round number (nothing may depend on where the clock stands)
         t0 = draw(st.sampled_from([0, 0, 1 / 128, 37 / 128, 1000 + 5 / 1024]))
-        return {"limit": limit, "period": period, "form": form, "calls": calls, "t0": t0, "bystander": draw(st.integers(0, 3)) == 0, "in_scope": draw(st.integers(0, 3)) == 0}
+        return {"limit": limit, "period": period, "form": form, "calls": calls, "t0": t0, "bystander": draw(st.sampled_from([False, False, False, True, "same"])), "in_scope": draw(st.integers(0, 3)) == 0}
 
     return cases()
 
